@@ -31,11 +31,11 @@ from vlib.dev_harness import DevHarness, ProbeDevice
 LEVEL = "exploration"
 TECHNIQUE = "runtime monitor: device state after the real queue looped the setter's telegrams back, compared with the requested value over the datapoint's decode image"
 LEVEL_TEXT = (
-    "Table of 30 (device class, feature) rows covering Switch, Light (switch, brightness, tunable white, RGB, RGBW, individual colours, HS, xyY, colour "
+    "Table of 20 row classes (about 45 device-class/setter pairs) covering Switch, Light (switch, brightness, tunable white, RGB, RGBW, individual colours, HS, xyY, colour "
     "temperature), Fan, Cover (position / up-down / angle incl. invert flags, with and without a position address), Climate (target temperature, setpoint "
     "shift DPT 6.010 / 9.002 / auto-detected with steps 0.05..1 and ranges, on/off invert, fan speed, swing), ClimateMode (all address subsets), "
     "NumericValue / ExposeSensor over DPT choices, Notification, RawValue, Scene, Time/Date/DateTime devices and a RemoteValueScaling with generated "
-    "ranges; per row quick 5 generated configurations x 14 values (thorough 40 x 40, 16 shards). Exploration: configurations and values are sampled."
+    "ranges; per row quick 20 generated configurations x 24 setter calls (thorough 60 x 40, 16 shards; NumericValue/ExposeSensor: one configuration per DPT class x 2 resp. 6 repetitions). Exploration: configurations and values are sampled."
 )
 LEVEL_NOTE = (
     "Trusted: virtual loop, fake interface (confirms at once), clock shim for Cover travel. Judged: the public state property named in the row, right after the "
